@@ -4,18 +4,28 @@
 (* the Registry model predicts under the listed deviations (carried in the case as `pred`) give Pred.    *)
 (* The hook events ns_ref / switch_tns / merge are checked for internal consistency (an abbreviation     *)
 (* handed out twice for different URIs inside one document is reported as drift).                        *)
-EXTENDS Naturals, Sequences, FiniteSets, TLC, Json, IOUtils, TLCExt
+EXTENDS Registry, Json, IOUtils, TLCExt
 
 CONSTANTS Dev
 Rec == ndJsonDeserialize(IOEnv.TRACE)
 Voc == Rec[1].vocab
 UriStr(id) == IF "uris" \in DOMAIN Voc /\ id \in DOMAIN Voc.uris THEN Voc.uris[id].uri ELSE id
 NameXml(id) == IF "names" \in DOMAIN Voc /\ id \in DOMAIN Voc.names THEN Voc.names[id].xml ELSE id
-None == [none |-> TRUE]
 
-VARIABLES l, cur, rd, reg    \* reg: set of <<abbr, uri>> seen in ns_ref/switch_tns events of the current case
-tvars == <<l, cur, rd, reg>>
-TraceInit == l = 2 /\ cur = None /\ rd = "none" /\ reg = {} /\ TLCSet(1, 0) /\ TLCSet(2, 0) /\ TLCSet(3, 0)
+VARIABLES l, cur, rd, reg,   \* reg: set of <<abbr, uri>> seen in ns_ref/switch_tns events of the current case
+          docs,              \* the model's documents, one per file being read (a stack), stepped by the hook events
+          ret,               \* the document returned by the file that was left last (waiting to be merged)
+          conf               \* TRUE while every registry event so far is the step the Registry model takes
+tvars == <<l, cur, rd, reg, docs, ret, conf>>
+TraceInit == l = 2 /\ cur = None /\ rd = "none" /\ reg = {} /\ docs = <<>> /\ ret = EmptyDoc /\ conf = TRUE
+             /\ TLCSet(1, 0) /\ TLCSet(2, 0) /\ TLCSet(3, 0)
+WellKnown == {"http://www.w3.org/XML/1998/namespace", "http://www.w3.org/2001/XMLSchema", "http://www.w3.org/2001/XMLSchema-instance",
+              "http://www.w3.org/2007/XMLSchema-versioning"}
+\* abbreviation base of a URI string, from the vocabulary (unknown URIs: the step cannot be predicted)
+BaseOfUri(u) == IF \E id \in DOMAIN Voc.uris : Voc.uris[id].uri = u /\ "base" \in DOMAIN Voc.uris[id]
+                THEN Voc.uris[CHOOSE id \in DOMAIN Voc.uris : Voc.uris[id].uri = u /\ "base" \in DOMAIN Voc.uris[id]].base ELSE "?"
+TopDoc == docs[Len(docs)]
+SetTop(d) == [docs EXCEPT ![Len(docs)] = d]
 ev == Rec[l]
 IsEvent(k) == l <= Len(Rec) /\ ev.ev = k /\ l' = l + 1
 
@@ -53,13 +63,40 @@ NsViol(out, types) ==
 
 Inst(v) == [prop |-> "C10", id |-> cur.id] @@ v
 
-TrCase == IsEvent("case") /\ cur' = ev /\ rd' = "none" /\ reg' = {}
-TrRet == IsEvent("ret") /\ rd' = ev.outcome /\ UNCHANGED <<cur, reg>>
+TrCase == IsEvent("case") /\ cur' = ev /\ rd' = "none" /\ reg' = {} /\ docs' = <<>> /\ ret' = EmptyDoc /\ conf' = TRUE
+TrRet == IsEvent("ret") /\ rd' = ev.outcome /\ UNCHANGED <<cur, reg, docs, ret, conf>>
+
+\* the file recursion: a new document per file (seeded from its importer's), returned on leave, merged by the importer
+TrEnter == /\ IsEvent("enter_file")
+           /\ docs' = Append(docs, IF docs = <<>> THEN EmptyDoc ELSE Seed(TopDoc, Dev))
+           /\ UNCHANGED <<cur, rd, reg, ret, conf>>
+TrLeave == /\ IsEvent("leave_file")
+           /\ IF docs = <<>> THEN conf' = FALSE /\ UNCHANGED <<docs, ret>>
+              ELSE ret' = TopDoc /\ docs' = SubSeq(docs, 1, Len(docs) - 1) /\ conf' = conf
+           /\ UNCHANGED <<cur, rd, reg>>
+TrMerge == /\ IsEvent("merge")
+           /\ IF docs = <<>> THEN conf' = FALSE /\ UNCHANGED docs
+              ELSE /\ docs' = SetTop(Merge(TopDoc, ret, Dev))
+                   /\ conf' = (conf /\ Len(Merge(TopDoc, ret, Dev).nss) = ev.nss /\ Len(Merge(TopDoc, ret, Dev).tns) = ev.tns)
+           /\ ret' = EmptyDoc
+           /\ UNCHANGED <<cur, rd, reg>>
 
 \* registry events of one document must never hand out one abbreviation for two URIs
 TrNs == /\ l <= Len(Rec) /\ ev.ev \in {"ns_ref", "switch_tns"} /\ l' = l + 1
         /\ reg' = IF ev.abbr = "null" THEN reg ELSE reg \cup {<<ev.abbr, ev.uri>>}
-        /\ UNCHANGED <<cur, rd>>
+        /\ IF docs = <<>> \/ (BaseOfUri(ev.uri) = "?" /\ ev.uri \notin WellKnown)
+           THEN UNCHANGED <<docs, conf>>        \* a URI outside the vocabulary: not predicted
+           ELSE IF ev.ev = "ns_ref"
+                THEN LET wk == ev.uri \in WellKnown
+                         o == AddRefOutcome(TopDoc, ev.prefix, ev.uri, wk)
+                         ns == AddRefNs(TopDoc, ev.prefix, ev.uri, BaseOfUri(ev.uri), wk)
+                     IN /\ docs' = SetTop(AddRef(TopDoc, ev.prefix, ev.uri, BaseOfUri(ev.uri), wk))
+                        /\ conf' = (conf /\ o = ev.outcome /\ (ns = None \/ o = "prefix_taken" \/ Label(ns) = ev.abbr))
+                ELSE LET o == SwitchOutcome(TopDoc, ev.uri)
+                         d2 == SwitchTns(TopDoc, ev.uri, BaseOfUri(ev.uri), Dev)
+                     IN /\ docs' = SetTop(d2)
+                        /\ conf' = (conf /\ o = ev.outcome /\ (o = "already" \/ Label(d2.cur) = ev.abbr))
+        /\ UNCHANGED <<cur, rd, ret>>
 
 TrWritten ==
   /\ IsEvent("written")
@@ -74,17 +111,19 @@ TrWritten ==
              \* step-level: the modules the model predicts are the modules observed
              /\ ({m.name : m \in {ev.out.mods[i] : i \in 1..Len(ev.out.mods)}} # {m.name : m \in {cur.case.pred.mods[i] : i \in 1..Len(cur.case.pred.mods)}})
                    => PrintT(<<"DRIFT", ToJson([id |-> cur.id, what |-> "module labels differ from the model's"])>>)
-  /\ UNCHANGED <<cur, rd, reg>>
+  /\ UNCHANGED <<cur, rd, reg, docs, ret, conf>>
 
 TrDone ==
   /\ IsEvent("done")
   /\ IF rd # "doc" THEN PrintT(<<"VIOL", ToJson(Inst(V("accepted", "read_xml", "doc", rd)))>>) /\ TLCSet(2, TLCGet(2) + 1) ELSE TRUE
   /\ (\E a, b \in reg : a[1] = b[1] /\ a[2] # b[2]) => PrintT(<<"DRIFT", ToJson([id |-> cur.id, what |-> "one abbreviation for two URIs in registry events"])>>)
-  /\ TLCSet(1, TLCGet(1) + 1)
-  /\ UNCHANGED <<cur, rd, reg>>
+  /\ (~conf) => PrintT(<<"DRIFT", ToJson([id |-> cur.id, what |-> "a registry event is not the step spec/Registry.tla takes"])>>)
+  /\ TLCSet(1, TLCGet(1) + 1) /\ TLCSet(3, TLCGet(3) + (IF conf THEN 1 ELSE 0))
+  /\ UNCHANGED <<cur, rd, reg, docs, ret, conf>>
 
-TrOther == l <= Len(Rec) /\ ev.ev \notin {"case", "ret", "written", "done", "ns_ref", "switch_tns"} /\ l' = l + 1 /\ UNCHANGED <<cur, rd, reg>>
-TraceNext == TrCase \/ TrRet \/ TrNs \/ TrWritten \/ TrDone \/ TrOther
+TrOther == /\ l <= Len(Rec) /\ ev.ev \notin {"case", "ret", "written", "done", "ns_ref", "switch_tns", "enter_file", "leave_file", "merge"} /\ l' = l + 1
+           /\ UNCHANGED <<cur, rd, reg, docs, ret, conf>>
+TraceNext == TrCase \/ TrRet \/ TrNs \/ TrEnter \/ TrLeave \/ TrMerge \/ TrWritten \/ TrDone \/ TrOther
 TraceSpec == TraceInit /\ [][TraceNext]_tvars
 Accepted == /\ PrintT(<<"TALLY", TLCGet(1), TLCGet(2), TLCGet(3)>>)
             /\ IF TLCGet("stats").diameter = Len(Rec) THEN TRUE
